@@ -341,13 +341,13 @@ Definition simple_is_url (s : bytes) : bool :=
                     else
                       let hostport := match split_at 64%N (rev netloc) [] with
                                       | Some (rhp, _) => rev rhp | None => netloc end in
-                      match last_colon_split hostport with
+                      (* urllib: hostname, _, port = hostinfo.partition(':') -- everything after the FIRST colon *)
+                      match split_at 58%N hostport [] with
                       | None => true
                       | Some (_, port) =>
                           match port with
                           | [] => true
-                          | _ => forallb is_digit port &&
-                                 (Z.of_nat (length port) <=? 10) && (digits_value port <=? 65535)
+                          | _ => forallb is_digit port && (digits_value port <=? 65535)
                           end
                       end
                 end
